@@ -3,8 +3,8 @@ hash seeds, threads, and concurrent processes on one temporary directory with co
 import os, random, shutil, subprocess, tempfile, json, glob, concurrent.futures as cf
 from .. import impl
 
-RULE = ('cases = (a) histories of 6-14 compile calls over a pool of valid and invalid programs in ONE process (random order, repeats, failures '
-        'interleaved) vs each program compiled in a fresh process; (b) stream vs file object; (c) 5 hash seeds; (d) 8 threads compiling '
+RULE = ('cases = (a) histories of 6-14+ compile calls over a pool of valid, rejected (inside nested rules / nested mixin calls / endless expansion / cycles) and generated programs in ONE process (random order, repeats, failures '
+        'interleaved; every (rejected, hand-written valid) pair occurs consecutively in some history) vs each program compiled in a fresh process; (b) stream vs file object; (c) 5 hash seeds; (d) 8 threads compiling '
         'concurrently in one process; (e) 16 processes started together on ONE temporary directory whose yacctab.py is absent / valid / '
         'truncated at a prefix length (every prefix in thorough, sampled in quick) / foreign text / a directory entry; every result must be '
         'byte-identical to the reference; distinct = distinct (history | cache state); non-trivial = the history contains a failure followed by a success, or the cache file is damaged')
@@ -20,7 +20,36 @@ VALID = ['.a{color:red; .b{top:1px + 2}}\n', '@x:3px;\n.c{margin:@x * 2}\n', '.m
 INVALID = ['.e{color:\n', '.p{width:@nope}\n', '.q{color:red}}\n', '.r{ : }\n', '@import "missing-file";\n',
            # compilations that stop while the lexer is inside a parenthesis, url(, a media query, a string
            'a{width:(1px', '.s{background:url("x', '@media screen and (', '.t{content:"abc @{x', ".u{content:~'x", '.v{width:calc(1px + (2px']
+# programs whose compilation leans on state that must not outlive it: mixins called at the top level and from rules, bodies with nested rules,
+# expansion at the depth limit, rules used as mixins, closures, interpolation, @arguments, nested @media, keyframes
+VALID += ['.m(){ .x{ color: red; } }\n.m();\n', '.in(@a){ width: @a; }\n.out(@b){ .in(@b); .y{ .in(@b * 2); } }\n.r{ .out(3px); }\n',
+          '.loop(@i) when (@i > 0){ w: @i; .loop(@i - 1); }\n.z{ .loop(64); }\n', '.l2(@i) when (@i > 0){ .c@{i}{ w: @i; } .l2(@i - 1); }\n.l2(5);\n',
+          '.b{ color: blue; .c{ top: 0; } }\n.d{ .b; }\n', '@v: 2px;\n.cl(){ margin: @v; }\n.e{ @v: 5px; .cl(); }\n.f{ .cl(); }\n',
+          '@n: box;\n.@{n}-a{ content: "@{n}"; }\n.args(@a; @b: 2){ border: @arguments; }\n.g{ .args(1); }\n',
+          '.h{ @media screen{ .i{ @media (min-width: 10px){ left: 0; } } } }\n', '@keyframes k{ from{ top: 0; } to{ top: 1px; } }\n.j{ a: b; }\n',
+          '.p{ .q{ width: 1px; } }\n.s{ .p; }\n.x{ color: red; }\n']
+# compilations rejected deep inside something: a nested rule, a mixin called from a mixin, endless expansion, a cycle, an at-rule in a rule
+INVALID += ['.p{ .q{ width: @nope; } }\n', '.in(){ width: @nope; }\n.out(){ .in(); }\n.r{ .out(); }\n', '.m(){ .m(); }\n.x{ .m(); }\n',
+            '.m(){ .a{ .m(); } }\n.x{ .m(); }\n', '.m(){ .a, .b{ .m(); } }\n.x{ .m(); }\n', '@a: @b;\n@b: @a;\n.x{ w: @a; }\n',
+            '.t{ @media print{ .u{ left: @nope; } } }\n', '.g(@a) when (@a > @nope){ w: 1; }\n.v{ .g(1); }\n', '.@{nope}{ a: b; }\n',
+            '@keyframes k{ from{ top: @nope; } }\n', '.w{ .deep{ .deeper{ color: red; }\n', '.o(@a){ .i{ w: @a @nope; } }\n.o(1);\n']
 PY = impl.PY
+
+
+def generated_programs(rng, n):
+    """valid programs from the stylesheet generator (mixins, variables, nesting, media, at-rules), kept only if they compile alone"""
+    from ..gens import sheet as S
+    out, tries = [], 0
+    while len(out) < n and tries < n * 10:
+        tries += 1
+        g = S.Gen(rng, rng.choice([['var', 'media', 'amp'], ['amp', 'media', 'leadcomb'], ['var', 'at', 'media']]))
+        sh = g.mixin_program() if rng.random() < 0.6 else g.sheet(nunits=rng.choice([1, 2, 3]), depth=rng.randint(1, 3))
+        if sh is None or S.sel_count(sh) > 40:
+            continue
+        text = S.show(sh, S.Layout(rng, wild=False))
+        if len(text) < 3000:
+            out.append(text)
+    return out
 
 RUNNER = r'''
 import sys, io, json, os
@@ -82,8 +111,12 @@ def run(ctx):
     out = {'evaluations': 0, 'spec_mismatch': [], 'model_mismatch': [], 'harness_errors': []}
     quick = ctx['tier'] == 'quick'
     mult = ctx.get('mult', 1)
-    pool = VALID + INVALID
-    dist = {}
+    gen = generated_programs(rng, (24 if quick else 200) * mult)
+    pool = VALID + INVALID + gen
+    import time
+    t0 = time.time()
+    dist = {'generated_programs': len(gen)}
+    marks = dist.setdefault('seconds', {})
     try:
         if os.path.exists(os.path.join(impl.REPO, 'lesscpy', 'lessc', 'yacctab.py')):
             out['spec_mismatch'].append({'input': {'file': 'lesscpy/lessc/yacctab.py'}, 'impl': 'present', 'classes': [],
@@ -93,6 +126,7 @@ def run(ctx):
             refs = list(ex.map(lambda it: run_proc([it[1]], os.path.join(base, 'ref%d' % it[0]))[0], list(enumerate(pool))))
         ref = {t: norm(r) for t, r in zip(pool, refs)}
 
+        marks['references'] = round(time.time() - t0, 1)
         def check(kind, texts, results, inp):
             for t, r in zip(texts, results):
                 out['evaluations'] += 1
@@ -102,12 +136,20 @@ def run(ctx):
         # ---- (a) histories in one process
         nh = (10 if quick else 120) * mult
         hists = [[rng.choice(pool) for _ in range(rng.randint(6, 14))] for _ in range(nh)]
+        # every rejected program is followed at least once by every hand-written valid one (in some history)
+        pairs = [(b, v) for b in INVALID for v in VALID]
+        rng.shuffle(pairs)
+        per = max(1, len(pairs) // max(1, nh) + 1) if quick else len(pairs)
+        for i, h in enumerate(hists):
+            for b, v in pairs[i * per:(i + 1) * per] if quick else rng.sample(pairs, 6):
+                h += [b, v]
         with cf.ThreadPoolExecutor(16) as ex:
             res = list(ex.map(lambda it: run_proc(it[1], os.path.join(base, 'hist%d' % it[0])), list(enumerate(hists))))
         for h, r in zip(hists, res):
             check('history', h, r, {'history': h})
         dist['histories'] = nh
-        nontrivial = sum(1 for h in hists if any(a in INVALID and b in VALID for a, b in zip(h, h[1:])))
+        nontrivial = sum(1 for h in hists if any(ref[a][0] != 'ok' and ref[b][0] == 'ok' for a, b in zip(h, h[1:])))
+        marks['histories'] = round(time.time() - t0, 1)
         # ---- (b) stream vs file object
         fdir = os.path.join(base, 'files'); os.makedirs(fdir)
         fitems = []
@@ -116,10 +158,15 @@ def run(ctx):
             open(p, 'w').write(t)
             fitems.append({'path': p, 'text': t})
         check('file object', fitems, run_proc(fitems, os.path.join(base, 'fileobj')), {'mode': 'file object'})
+        marks['fileobj'] = round(time.time() - t0, 1)
         # ---- (c) hash seeds
-        for hs in ([1, 2, 3, 4, 'random'] if True else []):
-            check('hash seed %s' % hs, pool, run_proc(pool, os.path.join(base, 'hs%s' % hs), hashseed=hs), {'hashseed': hs})
+        hss = [1, 2, 3, 4, 'random']
+        with cf.ThreadPoolExecutor(5) as ex:
+            hres = list(ex.map(lambda hs: run_proc(pool, os.path.join(base, 'hs%s' % hs), hashseed=hs), hss))
+        for hs, r in zip(hss, hres):
+            check('hash seed %s' % hs, pool, r, {'hashseed': hs})
         dist['hash_seeds'] = 5
+        marks['hashseeds'] = round(time.time() - t0, 1)
         # ---- (d) threads in one process
         with impl.Pool(1) as wp:
             a = wp.run([{'kind': 'compile_threads', 'texts': VALID + INVALID[:4], 'nthreads': 8, 'opts': {}}], timeout=300)[0]
@@ -127,6 +174,7 @@ def run(ctx):
             conv = [['ok', r['css']] if r.get('r') == 'ok' else [r.get('r'), r.get('cls') or r.get('type')] for r in row]
             check('threads', VALID + INVALID[:4], conv, {'threads': 8})
         dist['thread_rows'] = len(a.get('results', []))
+        marks['threads'] = round(time.time() - t0, 1)
         # ---- (e) concurrent processes on one temp dir with a damaged / foreign / valid / absent table file
         warm = os.path.join(base, 'warm'); run_proc([VALID[0]], warm)
         cache_files = {}
@@ -168,6 +216,7 @@ def run(ctx):
             for name, texts, results in ex.map(conc, list(enumerate(states))):
                 for r in results:
                     check('concurrent: ' + name, texts, r, {'cache_state': name, 'processes': nproc})
+        marks['concurrent'] = round(time.time() - t0, 1)
         out['distinct_nontrivial'] = nontrivial + len(states) - 1
         out['samples'] = [{'history': hists[0][:4]}, {'cache_states': [s[0] for s in states[:8]]}]
         out['distribution'] = dist
